@@ -12,6 +12,7 @@ mod routerd;
 mod rset;
 mod script;
 mod shm;
+mod timed;
 mod util;
 mod vanish;
 
@@ -30,6 +31,7 @@ fn main() {
         "codec" => codec::run(),
         "prog" => prog::run(),
         "res" => res::run(),
+        "timed" => timed::run(),
         #[cfg(feature = "async")]
         "async" => asyncd::run(),
         "router" => routerd::run(),
